@@ -25,10 +25,11 @@ themes = {1: 'any realistic break', 2: 'the less obvious corners', 3: 'CONJUNCTI
           10: 'defects that hide in Python semantics (aliasing and in-place mutation, class-level state, truthiness of 0 / empty values, identity versus equality, exceptions raised inside handlers, signed struct formats, int constructors)',
           11: 'breaks that need TWO INDEPENDENT ADVERSE EVENTS in one history, or a legal event arriving in a RARE STATE, and roll-back / clean-up code that runs only then',
           12: 'TIME and the order of work inside one loop turn (deadlines computed from the wrong base, several deadlines due in one turn, a process that was suspended for minutes, events served in the turn in which a deadline expires, counters and jitter that drift)',
-          13: 'a BUSIER daemon (three or more peers, several connections, several local addresses, several protect entries, many CHILD_SAs: state looked up by the wrong key, cross-talk between connections, the 2nd / 3rd element of a list) and the small helpers the state machine relies on'}
+          13: 'a BUSIER daemon (three or more peers, several connections, several local addresses, several protect entries, many CHILD_SAs: state looked up by the wrong key, cross-talk between connections, the 2nd / 3rd element of a list) and the small helpers the state machine relies on',
+          14: 'OPEN (ten properties with the most recent misses only): whatever the author judged least likely to be exercised - fixes with a side effect, behaviour that depends on the history of an object, four-step sequences, role / family / protocol / mode asymmetries, the right value in the wrong place'}
 head = f"""## 6. Seeded property-breaking changes and which checks catch them
 
-{n} changes, {2 * len(rounds)} per property in {len(rounds)} rounds, each written by a fresh sub-agent that saw only the property text and a scratch worktree of /repo
+{n} changes in {len(rounds)} rounds (two per property and round; the fourteenth round covered ten properties and one of its authors delivered a single change), each written by a fresh sub-agent that saw only the property text and a scratch worktree of /repo
 (nothing from /verif), each confirmed independently in a new scratch worktree (patch applies, 176 tests unchanged, the author's demo fails with and
 passes without it) and stored as `seeded/<id>/{{patch.diff, demo.py, notes.md, meta.json}}`. `tools/seedtest.py run <id> [checks]` re-runs any of them
 against a scratch worktree of the current /repo HEAD (never against /repo itself); `seeded/MATRIX.json` holds the first 80 against all 20 checks.
